@@ -22,6 +22,7 @@ PROBE_WHAT = {
  "nested-retype-of-outer-variable": "assigning a value of another type to an outer `mut` variable from a nested block is accepted by the checker (type compared only for same-block re-assignment; pinned by the `inferred_reassign` snapshot, whose `num = num / 2` relies on it) and rejected by rustc (E0308)",
  "append-while-iterating": "appending to a list inside a `for` over the same list is accepted; rustc rejects the mutable borrow (E0502)",
  "derive-partialord-alone": "`@derive(PartialOrd)` without PartialEq is accepted; rustc needs PartialEq",
+ "list-count-method": "`xs.count(1)` (also `xs.index(x)`) type-checks and is emitted as a method call `Vec` does not have (E0599): `detect_list_helpers_usage` sets a flag no emitter reads",
  "annotated-none-binding": "`o: Option[int] = None` is emitted as `let o = None::<_>;`: the annotation is dropped, and when nothing else fixes the type rustc cannot infer it (E0282); the emitted text is pinned by the type_annotations / patterns / lowercase_types snapshots",
  "default-parameter-omitted": "`def f(a: int, b: int = 2)` called as `f(1)`: default parameter values are parsed and type-checked but the backend emits the function with two plain parameters and the call with one argument (E0061)",
  "mutating-builtin-on-immutable-collection": "`xs = [1]; xs.append(2)` on an immutable list is accepted (the `function_calls` snapshot source relies on it); rustc E0596",
